@@ -61,20 +61,26 @@ variable (sqrt : α → α)
 def normWeights (C : Mat α) (kxx kyy : List α) : Mat α :=
   List.zipWith (fun crow kx => List.zipWith (fun c ky => c / sqrt (kx * ky)) crow kyy) C kxx
 
-/-- `for i: base->weightedParameterDerivative(single_i, single_i, [[w_i]], ·, sub); gradient -= sub` -/
-def subEach (G : Mat α → Mat α → Mat α → List α) : List α → List α → Mat α → List α
-  | g, w :: ws, x :: xs => subEach G (vsub g (G [[w]] [x] [x])) ws xs
+/-- `for i: base->weightedParameterDerivative(single_i, single_i, [[w_i]], ·, sub); gradient -= sub`
+(generic in the gradient type `γ` and its subtraction: lists for the driver, `ℝ` per component for the theorems) -/
+def subEachG {γ : Type} (sub : γ → γ → γ) (G : Mat α → Mat α → Mat α → γ) : γ → List α → Mat α → γ
+  | g, w :: ws, x :: xs => subEachG sub G (sub g (G [[w]] [x] [x])) ws xs
   | g, _, _ => g
 
 /-- `NormalizedKernel::weightedParameterDerivative`; `G` = the base kernel's `weightedParameterDerivative`,
 `kxy`, `kxx`, `kyy` = the state stored by `eval` -/
-def normParamGrad (G : Mat α → Mat α → Mat α → List α) (kxy : Mat α) (kxx kyy : List α) (C X1 X2 : Mat α) : List α :=
+def normParamGradG {γ : Type} (sub : γ → γ → γ) (G : Mat α → Mat α → Mat α → γ) (kxy : Mat α) (kxx kyy : List α)
+    (C X1 X2 : Mat α) : γ :=
   let w := normWeights sqrt C kxx kyy
   let g0 := G w X1 X2
   let w' := zipMat (· * ·) w kxy
   let wx := List.zipWith (fun r kx => rowSum r / (two * kx)) w' kxx
   let wy := List.zipWith (fun s ky => s / (two * ky)) (colSums w' kyy.length) kyy
-  subEach G (subEach G g0 wx X1) wy X2
+  subEachG sub G (subEachG sub G g0 wx X1) wy X2
+
+/-- the instance the driver runs: gradients are lists -/
+def normParamGrad (G : Mat α → Mat α → Mat α → List α) (kxy : Mat α) (kxx kyy : List α) (C X1 X2 : Mat α) : List α :=
+  normParamGradG sqrt vsub G kxy kxx kyy C X1 X2
 
 /-- `for i: base->weightedInputDerivative(single_i, single_i, [[wx_i]], ·, sub); row(gradient,i) -= row(sub,0)` -/
 def subRows (Gin : Mat α → Mat α → Mat α → Mat α) : Mat α → List α → Mat α → Mat α
